@@ -383,7 +383,7 @@ func TestScenarios(t *testing.T) {
 			}
 			lg.Add(inst.Event{Ev: "cfg", Data: map[string]any{
 				"gw": int64(cfg.T.gw / time.Millisecond), "gi": int64(cfg.T.gi / time.Millisecond), "ri": int64(cfg.T.ri / time.Millisecond),
-				"integs": cfg.Integs, "inhibit": cfg.Inhibit, "rt": int64(resolveTimeout / time.Millisecond), "windows": windows,
+				"integs": cfg.Integs, "inhibit": cfg.Inhibit, "rt": int64(resolveTimeout / time.Millisecond), "windows": windows, "wait": 0, "maxwait": 0,
 			}})
 			cur := cfg.Integs
 			if err := in.Reload(cfg.yaml(cur)); err != nil {
